@@ -41,6 +41,14 @@ def run(chk: Check):
         if I["id"] not in res:
             continue
         ex = wf.exact_values(I, res[I["id"]])
+        # finite-difference kinds chosen for a step-size ladder are evaluated at the COARSE steps first and at the default
+        # step afterwards: trial objects that differ only in eps must not share compiled code (a jit cache keyed on a
+        # hash / equality that ignores eps would hand the coarse-step executable to the default-step trial)
+        pre_vals = None
+        if I["kind"] in wf.AD_KINDS:
+            key_ = (I["kind"], I["norb"], I["nu"], I["nd"], I["restricted"])
+            if not (chk.tier == "quick" and (key_ in seen_ladder or len([k for k in seen_ladder if k[0] == I["kind"]]) >= 1)):
+                pre_vals = {eps: list(wfcheck.lib_eval(I, "e", eps=eps).values())[0] for eps in EPS_LADDER}
         got = wfcheck.lib_eval(I, "e")
         wfcheck.compare(chk, I, ex, got, "e", tol_for(I["kind"]), "energy")
         chk.traces += 1
@@ -58,10 +66,7 @@ def run(chk: Check):
             if chk.tier == "quick" and (key in seen_ladder or len([k for k in seen_ladder if k[0] == I["kind"]]) >= 1):
                 continue
             seen_ladder.add(key)
-            vals = {}
-            for eps in EPS_LADDER:
-                g = wfcheck.lib_eval(I, "e", eps=eps)
-                vals[eps] = list(g.values())[0]
+            vals = pre_vals if pre_vals is not None else {eps: list(wfcheck.lib_eval(I, "e", eps=eps).values())[0] for eps in EPS_LADDER}
             for k, e in enumerate(ex):
                 if e["zero"] or isinstance(vals[EPS_LADDER[0]], dict):
                     continue
